@@ -4,7 +4,7 @@ import PPLV.Checked.ProofsPre
 import PPLV.Checked.ProofsSpec
 import PPLV.Checked.ProofsExt3
 import PPLV.Checked.ProofsConv
-import PPLV.Checked.ProofsFixedExt
+import PPLV.Checked.ModelAsWritten
 /-!
 # C11 — checked arithmetic reports true rounding relations; bounded builds never lie
 
@@ -26,13 +26,15 @@ least twice as wide; a signed type has two bits (`add_2exp` shifts by `bits - 2`
 The contract of a call is `IntOp.pre` (operands are bit patterns of the type; conditions that a
 `check_*` flag set to false leaves to the caller hold) — the same Boolean the driver evaluates.
 
-Clauses the unchanged code violates are stated as `…_fails` on a concrete witness next to the
-`…_partial` version that excludes exactly the offending input class:
-`div` (negative divisor, inexact quotient, directed rounding), `subMul` (`0 - (max+1)` reported as
-overflow), `umod2exp` (result lands on the bit pattern of `+∞`), `sqrt` (signed operand
-`≥ 2^(bits-2)`: the bit-by-bit loop overflows its accumulator), `lcm` (the result code of an
-intermediate `abs` is returned without anything being stored).
-Not covered by theorems (correspondence only): `sqrt`, `gcd`, `lcm`.
+Four defects found by this property (KF-C11-1 … KF-C11-4: `div_signed_int`, `sub_mul_int`,
+`umod_2exp_signed_int`, `isqrt_rem`) are repaired in /repo (commits 5157d9d, 295149f, f54ddd9,
+1ff2aae); `Model.lean` is the repaired code and `div_holds`, `subMul_holds`, `umod2exp_holds` are
+full-strength.  What was wrong is kept as historical witnesses `…_before_fix_fails` about the
+as-written variants of `ModelAsWritten.lean` (the driver compares the library with those variants
+when the harness measures that a repair is absent, so a regression is reported through the violated
+clause and its witness).  Still open: `lcm` returns the result code of an intermediate `abs` without
+storing anything (KF-C11-5, `lcm_model_fails`; only observable with a policy the library never
+instantiates).  Not covered by theorems (correspondence only): `sqrt`, `gcd`, `lcm`.
 -/
 namespace C11
 open PPLV.Checked PPLV.Checked.Result
@@ -234,159 +236,57 @@ theorem assign_mpq_holds {t : IntTy} {π : Policy} (c : Cfg t π) (dir : Dir) {t
 example : assignMpq .i8 .extended 0 (-253) 2 .down = (-128, V_GT_MINUS_INFINITY) := by decide
 example : assignMpq .i8 .checkOverflowOnly 0 255 2 .up = (127, V_LT_PLUS_INFINITY.orUnrep) := by decide
 
-/-! ## division: wrong for a negative divisor -/
+/-! ## division -/
 
-/-- the input class on which `div_signed_int` is wrong: signed type, finite operands, divisor
-below −1, inexact quotient, directed rounding -/
-def divBad (t : IntTy) (π : Policy) (dir : Dir) (a : Operands) : Prop :=
-  t.signed = true ∧ ∃ v u, t.denote π a.x = .fin v ∧ t.denote π a.y = .fin u ∧
-    ¬ (0 < u ∨ v.tmod u = 0 ∨ dir.notRequested = true)
-
-/-- **`7 / -2`, ROUND_DOWN on `int8_t`: stores −3 and returns `V_GT`** ("the exact result is
-greater than −3"; it is −3.5).  `holds` and `directed` are both violated. -/
-theorem div_holds_fails :
-    ¬ K4.holds (IntOp.run .i8 .checkOverflowOnly .div .down { x := 7, y := -2 }).2
-        ((IntTy.i8.denote .checkOverflowOnly (IntOp.run .i8 .checkOverflowOnly .div .down { x := 7, y := -2 }).1).map
-          (Int.cast : Int → Rat))
-        (IntOp.exact .i8 .checkOverflowOnly .div { x := 7, y := -2 }).toQ := by
-  have e1 : IntOp.run .i8 .checkOverflowOnly .div .down { x := 7, y := -2 } = (-3, V_GT) := by decide
-  have e2 : IntTy.i8.denote .checkOverflowOnly (-3) = .fin (-3) := by decide
-  have e3 : IntOp.exact .i8 .checkOverflowOnly .div { x := 7, y := -2 } = .frac (-7) 2 := by decide
-  rw [e1, e3]
-  simp only [e2, Ext.map, Exact.toQ]
-  simp only [K4.holds, V_GT, K4.relHolds, Rel.GT, Rel.EMPTY, Ext.lt, Ext.eqv]
-  norm_num
-
-theorem div_directed_fails :
-    ¬ K4.directed .down (IntOp.run .i8 .checkOverflowOnly .div .down { x := 7, y := -2 }).2
-        ((IntTy.i8.denote .checkOverflowOnly (IntOp.run .i8 .checkOverflowOnly .div .down { x := 7, y := -2 }).1).map
-          (Int.cast : Int → Rat))
-        (IntOp.exact .i8 .checkOverflowOnly .div { x := 7, y := -2 }).toQ := by
-  have e1 : IntOp.run .i8 .checkOverflowOnly .div .down { x := 7, y := -2 } = (-3, V_GT) := by decide
-  have e2 : IntTy.i8.denote .checkOverflowOnly (-3) = .fin (-3) := by decide
-  have e3 : IntOp.exact .i8 .checkOverflowOnly .div { x := 7, y := -2 } = .frac (-7) 2 := by decide
-  rw [e1, e3]
-  simp only [e2, Ext.map, Exact.toQ]
-  simp only [K4.directed, V_GT, Ext.le, Ext.lt, Ext.eqv]
-  intro h
-  have := (h trivial (by decide)).2 trivial
-  norm_num at this
-
-/-- **partial**: everything except `divBad`.  Missing: exactly the inputs of `div_holds_fails`'s
-class (signed, divisor < −1, inexact, ROUND_UP / ROUND_DOWN), where the code is wrong. -/
-theorem div_holds_partial {t : IntTy} {π : Policy} (c : Cfg t π) (dir : Dir) (a : Operands)
-    (hpre : IntOp.pre t π .div a = true) (hgood : ¬ divBad t π dir a) :
+/-- `div_assign_r`: every divisor, every direction (as repaired by /repo 5157d9d) -/
+theorem div_holds {t : IntTy} {π : Policy} (c : Cfg t π) (dir : Dir) (a : Operands)
+    (hpre : IntOp.pre t π .div a = true) :
     OKQ t π dir (IntOp.run t π .div dir a) (IntOp.exact t π .div a).toQ := by
   simp only [IntOp.pre, Bool.and_eq_true, decide_eq_true_eq, Bool.or_eq_true, Bool.not_eq_true'] at hpre
   obtain ⟨⟨⟨⟨⟨x1, x2⟩, y1, y2⟩, z1, z2⟩, hp2⟩, hp1⟩ := hpre
   rw [finZero_iff] at hp2
   rw [bothInf_iff] at hp1
   simp only [IntOp.run, IntOp.exact]
-  refine divExt_okq_partial c.wf c.larger c.checkOverflow dir ⟨z1, z2⟩ ⟨x1, x2⟩ ⟨y1, y2⟩ hp1 hp2 ?_
-  cases hs : t.signed
-  · exact Or.inl rfl
-  · right
-    intro v u hv hu
-    by_contra hne
-    exact hgood ⟨hs, v, u, hv, hu, hne⟩
+  exact divExt_okq c.wf c.larger c.checkOverflow dir ⟨z1, z2⟩ ⟨x1, x2⟩ ⟨y1, y2⟩ hp1 hp2
 
+example : IntOp.run .i8 .checkOverflowOnly .div .down { x := 7, y := -2 } = (-4, V_GT) := by decide
+example : IntOp.run .i8 .checkOverflowOnly .div .up { x := -7, y := -2 } = (4, V_LT) := by decide
 example : IntOp.run .i8 .checkOverflowOnly .div .down { x := -7, y := 2 } = (-4, V_GT) := by decide
-example : ¬ divBad .i8 .checkOverflowOnly .down { x := -7, y := 2 } := by
-  intro ⟨_, v, u, hv, hu, h⟩
-  have e1 : IntTy.i8.denote .checkOverflowOnly (-7) = .fin (-7) := by decide
-  have e2 : IntTy.i8.denote .checkOverflowOnly 2 = .fin 2 := by decide
-  simp only [e1, e2, Ext.fin.injEq] at hv hu
-  subst hv hu
-  exact h (Or.inl (by decide))
 
-/-! ## fused multiply-subtract: a representable result reported as overflow -/
+/-! ## fused multiply-subtract -/
 
-def subMulBad (t : IntTy) (π : Policy) (a : Operands) : Prop :=
-  t.signed = true ∧ π.hasNan = false ∧ a.to0 = 0 ∧ a.x * a.y = t.emax π + 1
-
-/-- **`0 − 2·64` on `int8_t`, ROUND_UP: stores −128 and returns `V_LT_INF`** ("negative overflow, the
-exact result is below −128"); the exact result is −128. -/
-theorem subMul_holds_fails :
-    ¬ K4.holds (IntOp.run .i8 .checkOverflowOnly .subMul .up { to0 := 0, x := 2, y := 64 }).2
-        ((IntTy.i8.denote .checkOverflowOnly (IntOp.run .i8 .checkOverflowOnly .subMul .up { to0 := 0, x := 2, y := 64 }).1).map
-          (Int.cast : Int → Rat))
-        (IntOp.exact .i8 .checkOverflowOnly .subMul { to0 := 0, x := 2, y := 64 }).toQ := by
-  have e1 : IntOp.run .i8 .checkOverflowOnly .subMul .up { to0 := 0, x := 2, y := 64 } = (-128, V_LT_INF) := by decide
-  have e2 : IntTy.i8.denote .checkOverflowOnly (-128) = .fin (-128) := by decide
-  have e3 : IntOp.exact .i8 .checkOverflowOnly .subMul { to0 := 0, x := 2, y := 64 } = .frac (-128) 1 := by decide
-  rw [e1, e3]
-  simp only [e2, Ext.map, Exact.toQ]
-  simp only [K4.holds, V_LT_INF, K4.relHolds, Rel.LT, Rel.EMPTY, Ext.lt, Ext.eqv]
-  norm_num
-
-/-- **partial**: everything except `subMulBad`. -/
-theorem subMul_holds_partial {t : IntTy} {π : Policy} (c : Cfg t π) (dir : Dir) (a : Operands)
-    (hpre : IntOp.pre t π .subMul a = true) (hgood : ¬ subMulBad t π a) :
+/-- `sub_mul_assign_r` (as repaired by /repo 295149f) -/
+theorem subMul_holds {t : IntTy} {π : Policy} (c : Cfg t π) (dir : Dir) (a : Operands)
+    (hpre : IntOp.pre t π .subMul a = true) :
     OKQ t π dir (IntOp.run t π .subMul dir a) (IntOp.exact t π .subMul a).toQ := by
   simp only [IntOp.pre, Bool.and_eq_true, decide_eq_true_eq, Bool.or_eq_true, Bool.not_eq_true'] at hpre
   obtain ⟨⟨⟨⟨x1, x2⟩, y1, y2⟩, z1, z2⟩, hp⟩ := hpre
   rw [same_iff] at hp
   simp only [IntOp.run, IntOp.exact, Exact.toQ_ofExt]
-  refine ok_toQ (subMulExt_ok_partial c.wf c.larger c.checkOverflow dir ⟨z1, z2⟩ ⟨x1, x2⟩ ⟨y1, y2⟩ hp (fun _ _ _ => ?_))
-  cases hn : π.hasNan
-  · cases hs : t.signed
-    · exact Or.inr (Or.inl rfl)
-    · right; right
-      intro ⟨h1, h2⟩
-      exact hgood ⟨hs, hn, h1, h2⟩
-  · exact Or.inl rfl
+  exact ok_toQ (subMulExt_ok c.wf c.larger c.checkOverflow dir ⟨z1, z2⟩ ⟨x1, x2⟩ ⟨y1, y2⟩ hp)
 
+example : IntOp.run .i8 .checkOverflowOnly .subMul .up { to0 := 0, x := 2, y := 64 } = (0, V_UNKNOWN_POS_OVERFLOW) := by decide
+example : IntOp.run .i8 .extended .subMul .up { to0 := 0, x := 2, y := 64 } = (-126, V_LT_INF) := by decide
 example : IntOp.run .i8 .checkOverflowOnly .subMul .up { to0 := -1, x := 2, y := 64 } = (-128, V_LT_INF) := by decide
 
-/-! ## umod_2exp: the result can be the bit pattern of +∞ -/
+/-! ## umod_2exp -/
 
-def umodBad (t : IntTy) (π : Policy) (a : Operands) : Prop :=
-  t.signed = true ∧ π.hasInfinity = true ∧ a.x < 0 ∧ a.e + 1 = t.bits
-
-/-- **`-1 umod 2^7` on `int8_t` under `Extended_Number_Policy`: stores 127 with `V_EQ`** — 127 is the
-bit pattern of `+∞` under that policy. -/
-theorem umod2exp_holds_fails :
-    ¬ K4.holds (IntOp.run .i8 .extended .umod2exp .down { x := -1, e := 7 }).2
-        (IntTy.i8.denote .extended (IntOp.run .i8 .extended .umod2exp .down { x := -1, e := 7 }).1)
-        (.fin (127 : Int)) := by
-  have e1 : IntOp.run .i8 .extended .umod2exp .down { x := -1, e := 7 } = (127, V_EQ) := by decide
-  have e2 : IntTy.i8.denote .extended 127 = .pinf := by decide
-  rw [e1]
-  simp only [e2, K4.holds, V_EQ]
-  intro ⟨_, ⟨s, hs⟩, _⟩
-  cases hs
-
-/-- **partial**: everything except `umodBad`. -/
-theorem umod2exp_holds_partial {t : IntTy} {π : Policy} (c : Cfg t π) (dir : Dir) (a : Operands)
-    (hpre : IntOp.pre t π .umod2exp a = true) (hgood : ¬ umodBad t π a) :
+/-- `umod_2exp_assign_r` (as repaired by /repo f54ddd9) -/
+theorem umod2exp_holds {t : IntTy} {π : Policy} (c : Cfg t π) (dir : Dir) (a : Operands)
+    (hpre : IntOp.pre t π .umod2exp a = true) :
     OKQ t π dir (IntOp.run t π .umod2exp dir a) (IntOp.exact t π .umod2exp a).toQ := by
   simp only [IntOp.pre, Bool.and_eq_true, decide_eq_true_eq, Bool.or_eq_true, Bool.not_eq_true'] at hpre
   obtain ⟨⟨⟨x1, x2⟩, z1, z2⟩, hp⟩ := hpre
   simp only [IntOp.run, IntOp.exact]
-  have side : t.signed = false ∨ π.hasInfinity = false ∨ 0 ≤ a.x ∨ a.e + 1 ≠ t.bits := by
-    cases hs : t.signed
-    · exact Or.inl rfl
-    · cases hi : π.hasInfinity
-      · exact Or.inr (Or.inl rfl)
-      · by_cases hx : 0 ≤ a.x
-        · exact Or.inr (Or.inr (Or.inl hx))
-        · by_cases he : a.e + 1 = t.bits
-          · exact absurd ⟨hs, hi, by omega, he⟩ hgood
-          · exact Or.inr (Or.inr (Or.inr he))
-  have := ok_toQ (umod2expExt_ok_partial c.wf dir a.e ⟨z1, z2⟩ ⟨x1, x2⟩ hp (fun _ => side))
+  have := ok_toQ (umod2expExt_ok c.wf dir a.e ⟨z1, z2⟩ ⟨x1, x2⟩ hp)
   have e : (exactUmod (t.denote π a.x) a.e).toQ =
       Ext.map Int.cast (match t.denote π a.x with | .fin v => Ext.fin (v % pow2 a.e) | _ => Ext.nan) := by
     cases t.denote π a.x <;> simp [exactUmod, Exact.ofInt, Exact.toQ, Ext.map]
   rw [e]
   exact this
 
-/-! ## sqrt: the accumulator of `isqrt_rem` overflows a signed type -/
-
-/-- **`sqrt(64)` on `int8_t`, ROUND_UP: stores 0 and returns `V_LT`** ("the exact result is below 0");
-the exact result is 8.  (Checked through squares: `0² < 64` refutes `√64 < 0`.) -/
-theorem sqrt_model_fails :
-    IntOp.run .i8 .checkOverflowOnly .sqrt .up { x := 64 } = (0, V_LT) ∧
-    K4.holdsB V_LT (.fin 0) (IntOp.exact .i8 .checkOverflowOnly .sqrt { x := 64 }) = false := by decide
+example : IntOp.run .i8 .extended .umod2exp .down { x := -1, e := 7 } = (126, V_GT_SUP) := by decide
+example : IntOp.run .i8 .checkOverflowOnly .umod2exp .down { x := -1, e := 7 } = (127, V_EQ) := by decide
 
 /-! ## lcm: the code of an intermediate `abs` is returned, nothing is stored -/
 
@@ -407,21 +307,12 @@ def proved : IntOp → Bool
   | .sqrt | .gcd | .lcm => false
   | _ => true
 
-/-- the three input classes where the unchanged code is wrong (among the proved operations) -/
-def knownBad (t : IntTy) (π : Policy) (op : IntOp) (dir : Dir) (a : Operands) : Prop :=
-  match op with
-  | .div => divBad t π dir a
-  | .subMul => subMulBad t π a
-  | .umod2exp => umodBad t π a
-  | _ => False
-
 /-- **C11.op_holds**, partial: for every width, signedness, policy, direction and operand bit
 patterns within the contract — relation, direction, overflow claim, no wrap, NaN stored.
-Missing: `sqrt`, `gcd`, `lcm` (no theorem) and the three `knownBad` input classes
-(the code is wrong there: `div_holds_fails`, `subMul_holds_fails`, `umod2exp_holds_fails`). -/
+Missing: `sqrt`, `gcd`, `lcm` only (no theorem; `lcm` has the open finding KF-C11-5). -/
 theorem op_holds_partial {t : IntTy} {π : Policy} (c : Cfg t π) (op : IntOp) (hop : proved op = true)
     (hasg : ∀ f πf, op = .assign f πf → f.WF πf ∧ t.GapOK f)
-    (dir : Dir) (a : Operands) (hpre : IntOp.pre t π op a = true) (hgood : ¬ knownBad t π op dir a) :
+    (dir : Dir) (a : Operands) (hpre : IntOp.pre t π op a = true) :
     OKQ t π dir (IntOp.run t π op dir a) (IntOp.exact t π op a).toQ := by
   cases op with
   | assign f πf => exact assign_holds c (hasg f πf rfl).1 (hasg f πf rfl).2 dir a hpre
@@ -430,16 +321,16 @@ theorem op_holds_partial {t : IntTy} {π : Policy} (c : Cfg t π) (op : IntOp) (
   | add => exact add_holds c dir a hpre
   | sub => exact sub_holds c dir a hpre
   | mul => exact mul_holds c dir a hpre
-  | div => exact div_holds_partial c dir a hpre hgood
+  | div => exact div_holds c dir a hpre
   | idiv => exact idiv_holds c dir a hpre
   | rem => exact rem_holds c dir a hpre
   | addMul => exact addMul_holds c dir a hpre
-  | subMul => exact subMul_holds_partial c dir a hpre hgood
+  | subMul => exact subMul_holds c dir a hpre
   | add2exp => exact add2exp_holds c dir a hpre
   | sub2exp => exact sub2exp_holds c dir a hpre
   | mul2exp => exact mul2exp_holds c dir a hpre
   | div2exp => exact div2exp_holds c dir a hpre
-  | umod2exp => exact umod2exp_holds_partial c dir a hpre hgood
+  | umod2exp => exact umod2exp_holds c dir a hpre
   | smod2exp => exact smod2exp_holds c dir a hpre
   | sqrt => cases hop
   | gcd => cases hop
@@ -466,60 +357,58 @@ example : (runB .i8 .checkOverflowOnly .ignore [.mul 2 0 1, .addMul 2 0 0, .div 
     (fun r => (r 2, r 3)) = some (70, 23) := by decide
 example : runB .i8 .checkOverflowOnly .ignore [.add 2 0 0] (fun _ => 100) = none := by decide
 
-/-! ## the repaired primitives (`fixes/fix_c11_*.diff`): the exclusions disappear
+/-! ## historical witnesses: what the four primitives did before they were repaired
 
-`IntOp.runF fx` follows the repaired source for the switches of `fx` that are on (the harness measures
-them on the tree it is compiled against, the driver compares the library with `runF`);
-`IntOp.runF {} = IntOp.run` is the code as it is.  With KF-C11-1/2/3 repaired the three `_partial`
-theorems hold at full strength. -/
+About the as-written variants of `ModelAsWritten.lean` (the code of /repo before 5157d9d, 295149f,
+f54ddd9, 1ff2aae).  `IntOp.runM fx` is what the driver compares the library with: `IntOp.run`, except
+that an operation whose repair the harness measured absent runs its as-written primitive. -/
 
-theorem runF_unrepaired (t : IntTy) (π : Policy) (op : IntOp) (dir : Dir) (a : Operands) :
-    IntOp.runF {} t π op dir a = IntOp.run t π op dir a := IntOp.runF_default t π op dir a
+theorem runM_repaired (t : IntTy) (π : Policy) (op : IntOp) (dir : Dir) (a : Operands) :
+    IntOp.runM {} t π op dir a = IntOp.run t π op dir a := IntOp.runM_repaired t π op dir a
 
-theorem div_holds_repaired {t : IntTy} {π : Policy} (c : Cfg t π) (fx : Fixes) (hfx : fx.div = true) (dir : Dir)
-    (a : Operands) (hpre : IntOp.pre t π .div a = true) :
-    OKQ t π dir (IntOp.runF fx t π .div dir a) (IntOp.exact t π .div a).toQ := by
-  simp only [IntOp.pre, Bool.and_eq_true, decide_eq_true_eq, Bool.or_eq_true, Bool.not_eq_true'] at hpre
-  obtain ⟨⟨⟨⟨⟨x1, x2⟩, y1, y2⟩, z1, z2⟩, hp2⟩, hp1⟩ := hpre
-  rw [finZero_iff] at hp2
-  rw [bothInf_iff] at hp1
-  simp only [IntOp.exact]
-  exact runF_div_okq c.wf c.larger c.checkOverflow fx hfx dir a ⟨z1, z2⟩ ⟨x1, x2⟩ ⟨y1, y2⟩ hp1 hp2
+/-- **KF-C11-1 (fixed).  `7 / -2`, ROUND_DOWN on `int8_t` stored −3 and returned `V_GT`** ("the exact
+result is greater than −3"; it is −3.5): relation and direction both violated. -/
+theorem div_holds_before_fix_fails :
+    divAsWritten .i8 .checkOverflowOnly 0 7 (-2) .down = (-3, V_GT) ∧
+    ¬ K4.holds V_GT (Ext.fin ((-3 : Int) : Rat)) (Ext.fin ((7 : Rat) / (-2 : Rat))) ∧
+    ¬ K4.directed .down V_GT (Ext.fin ((-3 : Int) : Rat)) (Ext.fin ((7 : Rat) / (-2 : Rat))) := by
+  refine ⟨by decide, ?_, ?_⟩
+  · simp only [K4.holds, V_GT, K4.relHolds, Rel.GT, Rel.EMPTY, Ext.lt, Ext.eqv]
+    norm_num
+  · simp only [K4.directed, V_GT, Ext.le, Ext.lt, Ext.eqv]
+    intro h
+    have := (h trivial (by decide)).2 trivial
+    norm_num at this
 
-example : IntOp.runF { div := true } .i8 .checkOverflowOnly .div .down { x := 7, y := -2 } = (-4, V_GT) := by decide
-example : IntOp.runF { div := true } .i8 .checkOverflowOnly .div .up { x := -7, y := -2 } = (4, V_LT) := by decide
+/-- **KF-C11-2 (fixed).  `0 − 2·64` on `int8_t`, ROUND_UP stored −128 and returned `V_LT_INF`**
+("negative overflow, the exact result is below −128"); the exact result is −128. -/
+theorem subMul_holds_before_fix_fails :
+    subMulAsWritten .i8 .checkOverflowOnly 0 2 64 .up = (-128, V_LT_INF) ∧
+    ¬ K4.holds V_LT_INF (Ext.fin (-128 : Int)) (Ext.fin ((0 : Int) - 2 * 64)) := by
+  refine ⟨by decide, ?_⟩
+  simp [K4.holds, V_LT_INF, K4.relHolds, Rel.LT, Rel.EMPTY, Ext.lt, Ext.eqv]
 
-theorem subMul_holds_repaired {t : IntTy} {π : Policy} (c : Cfg t π) (fx : Fixes) (hfx : fx.subMul = true) (dir : Dir)
-    (a : Operands) (hpre : IntOp.pre t π .subMul a = true) :
-    OKQ t π dir (IntOp.runF fx t π .subMul dir a) (IntOp.exact t π .subMul a).toQ := by
-  simp only [IntOp.pre, Bool.and_eq_true, decide_eq_true_eq, Bool.or_eq_true, Bool.not_eq_true'] at hpre
-  obtain ⟨⟨⟨⟨x1, x2⟩, y1, y2⟩, z1, z2⟩, hp⟩ := hpre
-  rw [same_iff] at hp
-  simp only [IntOp.exact, Exact.toQ_ofExt]
-  exact ok_toQ (runF_subMul_ok c.wf c.larger c.checkOverflow fx hfx dir a ⟨z1, z2⟩ ⟨x1, x2⟩ ⟨y1, y2⟩ hp)
+/-- **KF-C11-3 (fixed).  `-1 umod 2^7` on `int8_t` under `Extended_Number_Policy` stored 127 with
+`V_EQ`** — 127 is the bit pattern of `+∞` under that policy. -/
+theorem umod2exp_holds_before_fix_fails :
+    umod2expAsWritten .i8 .extended 0 (-1) 7 .down = (127, V_EQ) ∧
+    ¬ K4.holds V_EQ (IntTy.i8.denote .extended 127) (Ext.fin (127 : Int)) := by
+  refine ⟨by decide, ?_⟩
+  have e2 : IntTy.i8.denote .extended 127 = .pinf := by decide
+  simp only [e2, K4.holds, V_EQ]
+  intro ⟨_, ⟨s, hs⟩, _⟩
+  cases hs
 
-example : IntOp.runF { subMul := true } .i8 .checkOverflowOnly .subMul .up { to0 := 0, x := 2, y := 64 } =
-    (0, V_UNKNOWN_POS_OVERFLOW) := by decide
-example : IntOp.runF { subMul := true } .i8 .extended .subMul .up { to0 := 0, x := 2, y := 64 } =
-    (-126, V_LT_INF) := by decide
+/-- **KF-C11-4 (fixed).  `sqrt(64)` on `int8_t`, ROUND_UP stored 0 and returned `V_LT`** ("the exact
+result is below 0"; it is 8): the accumulator `q = s + t` of `isqrt_rem` exceeded the signed type.
+(Judged through squares by the checker: `0² < 64` refutes `√64 < 0`.) -/
+theorem sqrt_before_fix_fails :
+    sqrtAsWritten .i8 .checkOverflowOnly 0 64 .up = (0, V_LT) ∧
+    K4.holdsB V_LT (.fin 0) (IntOp.exact .i8 .checkOverflowOnly .sqrt { x := 64 }) = false ∧
+    IntOp.run .i8 .checkOverflowOnly .sqrt .up { x := 64 } = (8, V_EQ) := by decide
 
-theorem umod2exp_holds_repaired {t : IntTy} {π : Policy} (c : Cfg t π) (fx : Fixes) (hfx : fx.umod = true) (dir : Dir)
-    (a : Operands) (hpre : IntOp.pre t π .umod2exp a = true) :
-    OKQ t π dir (IntOp.runF fx t π .umod2exp dir a) (IntOp.exact t π .umod2exp a).toQ := by
-  simp only [IntOp.pre, Bool.and_eq_true, decide_eq_true_eq, Bool.or_eq_true, Bool.not_eq_true'] at hpre
-  obtain ⟨⟨⟨x1, x2⟩, z1, z2⟩, hp⟩ := hpre
-  simp only [IntOp.exact]
-  have := ok_toQ (runF_umod_ok c.wf fx hfx dir a ⟨z1, z2⟩ ⟨x1, x2⟩ hp)
-  have e : (exactUmod (t.denote π a.x) a.e).toQ =
-      Ext.map Int.cast (match t.denote π a.x with | .fin v => Ext.fin (v % pow2 a.e) | _ => Ext.nan) := by
-    cases t.denote π a.x <;> simp [exactUmod, Exact.ofInt, Exact.toQ, Ext.map]
-  rw [e]
-  exact this
-
-example : IntOp.runF { umod := true } .i8 .extended .umod2exp .down { x := -1, e := 7 } = (126, V_GT_SUP) := by decide
-
-/-- with KF-C11-4 repaired the model of `sqrt` is right on the witness (no theorem for `sqrt`) -/
-example : IntOp.runF { isqrt := true } .i8 .checkOverflowOnly .sqrt .up { x := 64 } = (8, V_EQ) := by decide
+/-- a tree measured without the div repair is compared with the as-written division -/
+example : IntOp.runM { div := false } .i8 .checkOverflowOnly .div .down { x := 7, y := -2 } = (-3, V_GT) := by decide
 
 /-! ## the checker that judges the real library's output decides the property clauses -/
 
